@@ -25,6 +25,17 @@ def call_partition(n, mat, mode, scale=1, junk=0):
         C[n, :] = junk
         C[:, n] = junk
     e = {"ev": "optimalPartition", "n": n, "c": mat, "mode": mode, "raised": False, "res": []}
+    # the matrix as the caller stores it: float64, or - for small whole costs - a compact integer array in a coarser unit
+    # (x 12 000 as int16, x 100 as uint8: a positive factor changes no optimum; sums of two entries exceed the range of the type)
+    flat = [mat[i][j] for i in range(n) for j in range(n) if i != j]
+    if scale == 1 and not junk and flat and all(isinstance(v, int) and -2 <= v <= 2 for v in flat):
+        h_ = (n + sum(flat) + mode) % 3
+        if h_ == 1:
+            C = (C * 12000).astype(np.int16)
+            e["hist"] = "int16 matrix"
+        elif h_ == 2 and min(flat) >= 0:
+            C = (C * 100).astype(np.uint8)
+            e["hist"] = "uint8 matrix"
     pristine = C.copy()
     # history (every other call): the SAME array was partitioned just before in the other direction (both directions on one
     # matrix is ordinary use); the matrix belongs to the caller and must come back unchanged
